@@ -31,7 +31,10 @@ DISPLAY = ['x', 'X', 'i', 'I', 'j', 'Z', 'y', 'yy', 'Y', 'YY']
 NUMS = ['1', '2', '4', '8', '16', '32', '64', '0', '00', '3', '6', '12', '24', '4%3', '3%2', '16%5']
 LET = 'abcdefg'
 
-sig_lists = st.lists(st.sampled_from(SIG), max_size=5)
+# the everyday marks (ties, slurs, phrases, fermata, articulations, beams): a third of the notes carry only these
+SIG_COMMON = list("[]_(){};'\"`~^LJ")
+sig_lists = st.one_of(st.lists(st.sampled_from(SIG), max_size=5), st.lists(st.sampled_from(SIG), max_size=5),
+                      st.lists(st.sampled_from(SIG_COMMON), min_size=1, max_size=4))
 rest_sig_lists = st.lists(st.sampled_from(REST_SIG), max_size=3)
 
 
@@ -146,6 +149,8 @@ def layouts(draw, n):
         slots = ['pre', 'post', 'post']
     else:
         slots = ['pre', 'mid', 'mid2', 'post', 'post']
+    if draw(st.integers(0, 3)) == 0:
+        slots = ['post']  # the usual way to write a note: everything after the pitch and the accidental
     sigs = list(n['sigs'])
     if sigs and draw(st.integers(0, 3)) == 0:
         sigs = draw(st.permutations(sigs))
